@@ -22,6 +22,16 @@ CLAIMS = {
             "Proves that each step's ratio uses the pre-resampling population and the temperatures actually used, is appended exactly once per iteration and nowhere else, and that the returned evidence and error are the sum / root-sum of the recorded series."),
     "C09": ("5 C09", "value numbering of the generator call and the constructor keywords (field x index agreement)",
             "Proves the probability vector is the normalised incremental weight, the draw uses the caller's generator, and every per-sample field is indexed by the one drawn index."),
+    "C10": ("5 C10", "typestate 'coherent' on sample-set objects (field x producer agreement on the same object), loop transfer function of the initial-population accumulator, who-may-write scan of .x",
+            "Proves that each mutate() re-evaluates q, prior and likelihood on the returned object from its own coordinates, that the initial population pairs each draw with its own log_q, keeps exactly the finite-prior rows and is trimmed to n, and that nothing overwrites coordinates in place."),
+    "C11": ("5 C11", "computed loop-carried state (upward-exposed uses, mod summaries through self calls) vs checkpoint payload key set and restore-side stores; CFG cut-point check; dispatch table extraction",
+            "Proves every loop-carried local and self attribute is saved and restored (one known finding: BlackJAX key), restore reads only keys the payload writes, the resumed path does not mutate restored state before the loop, the checkpoint is cut after the iteration's writes, and the three source kinds are dispatched. Bit-identical replay is not decided."),
+    "C12": ("5 C12", "CFG path counting and post-dominance of checkpoint calls, path-condition extraction of the cadence predicate, event/guard analysis of the HDF5 blob writer, constant agreement writer vs readers, dominance of config/flow writing over sampling",
+            "Proves cadence (once per iteration + forced final on every return path), the resize-before-full-store discipline of the blob writer, per-checkpoint open/close, agreement of the group/dataset constants and that config and flow are written before the sampler starts."),
+    "C17": ("5 C17", "typestate (prior=SET) at every discovered likelihood call site, through row-aligned derivations and loop-carried variables; who-may-reference scan for the raw callable and the counter",
+            "The temporal property is decided completely at the structural level: all 12 call sites, including kernels that cannot be imported here; counting wrapper is the only path to the user likelihood and adds len(samples)."),
+    "C18": ("5 C18", "per-iteration path counting of history appends on the CFG (with run-invariant flag splitting), per-call path counting in each concrete mutate(), fresh/resumed pre-loop append analysis, value numbering of appended values",
+            "Proves one entry per iteration for every series on every path and class, initial population recorded once on the fresh path only, appended values are this iteration's definitions (four known findings: extra entry from the enlargement mutate)."),
 }
 
 NA = {
@@ -30,7 +40,7 @@ NA = {
 
 PENDING = {
     p: "check not built yet in this session (engine under construction); see DESIGN.md section 5"
-    for p in ["C10", "C11", "C12", "C13", "C14", "C15", "C16", "C17", "C18", "C19", "C20"]
+    for p in ["C13", "C14", "C15", "C16", "C19", "C20"]
 }
 
 
